@@ -178,6 +178,7 @@ func (q *memQuerier) Select(sortSeries bool, hints *storage.SelectHints, matcher
 	}
 	q.m.mu.Lock()
 	q.m.Selects = append(q.m.Selects, rec)
+	selIdx := len(q.m.Selects) - 1
 	q.m.mu.Unlock()
 	a := q.m.ev(EvSelect, rec)
 	if a.Err != nil {
@@ -208,7 +209,7 @@ func (q *memQuerier) Select(sortSeries bool, hints *storage.SelectHints, matcher
 			}
 			smp = tr
 		}
-		out = append(out, &memSeries{m: q.m, lbls: sd.Labels, samples: smp})
+		out = append(out, &memSeries{m: q.m, lbls: sd.Labels, samples: smp, sel: selIdx})
 	}
 	if sortSeries {
 		sort.SliceStable(out, func(i, j int) bool { return labels.Compare(out[i].lbls, out[j].lbls) < 0 })
@@ -247,6 +248,13 @@ type memSeries struct {
 	m       *MemStorage
 	lbls    labels.Labels
 	samples []Sample
+	sel     int // index of the Select call this series was handed out by
+}
+
+// ItInfo accompanies iterator events: which Select the iterator belongs to.
+type ItInfo struct {
+	Sel int
+	T   int64
 }
 
 func (s *memSeries) Labels() labels.Labels {
@@ -258,7 +266,7 @@ func (s *memSeries) Labels() labels.Labels {
 }
 func (s *memSeries) Iterator() chunkenc.Iterator {
 	s.m.ev(EvIterator, nil)
-	return &memIter{m: s.m, s: s.samples, i: -1}
+	return &memIter{m: s.m, s: s.samples, i: -1, sel: s.sel}
 }
 
 type memIter struct {
@@ -266,13 +274,14 @@ type memIter struct {
 	s   []Sample
 	i   int
 	err error
+	sel int
 }
 
 func (it *memIter) Next() chunkenc.ValueType {
 	if it.err != nil {
 		return chunkenc.ValNone
 	}
-	if a := it.m.ev(EvNext, nil); a.Err != nil {
+	if a := it.m.ev(EvNext, ItInfo{Sel: it.sel}); a.Err != nil {
 		it.err = a.Err
 		return chunkenc.ValNone
 	}
@@ -287,7 +296,7 @@ func (it *memIter) Seek(t int64) chunkenc.ValueType {
 	if it.err != nil {
 		return chunkenc.ValNone
 	}
-	if a := it.m.ev(EvSeek, t); a.Err != nil {
+	if a := it.m.ev(EvSeek, ItInfo{Sel: it.sel, T: t}); a.Err != nil {
 		it.err = a.Err
 		return chunkenc.ValNone
 	}
